@@ -34,8 +34,15 @@ func runC17(p *Prog, r *Report, tier string) {
 		// the field specifier decode: targets (elementid []byte, elementLength uint16)
 		var specDecode *ssa.Call
 		eachInstr(fr, func(in ssa.Instruction) {
+			// identified by what it reads (2 raw id bytes and a u16), not by its position in the function
 			if c, ok := in.(*ssa.Call); ok && calleeName(&c.Call) == "pkg/util.Decode" && specDecode == nil {
-				specDecode = c
+				if ts := decodeTargets(c); len(ts) == 2 {
+					w1, _ := widthOfPtr(ts[0].Type())
+					w2, _ := widthOfPtr(ts[1].Type())
+					if w1 == 0 && w2 == 2 {
+						specDecode = c
+					}
+				}
 			}
 		})
 		// IANA and enterprise-specific elements alike are looked up: no path from the field-specifier read to the creation
